@@ -171,7 +171,8 @@ def spd_operator(rng: Any, s: Any, blockdiag: bool = True) -> Any:
 def case_lazy(rng: Any, ctx: Ctx, index: int) -> None:
     gen.begin_case(rng)
     s = gen.rand_struct(rng)
-    if dense.size_of(s) > 12:
+    if dense.size_of(s) > 12 or len({np.dtype(l.dtype) for l in dense.leaves(s)}) > 1:
+        # lineax solvers refuse pytrees of mixed dtypes (DESIGN §7.2): uniform-dtype structures only
         s = gen.S((int(rng.integers(2, 7)),), gen.case_dtype(rng))
     name = gen.pick(rng, sorted(SOLVERS))
     # lineax's BiCGStab returns NaN for an exactly zero right-hand side (a dependency behaviour, see
